@@ -23,6 +23,12 @@ struct Case {
     skip_errors: bool,
     reps: u8,
     contention: bool,
+    /// order in which the three ParallelConfig setters are called (index into the 6 permutations)
+    #[serde(default)]
+    cfg_order: u8,
+    /// 0 generated listfile, 1 no listfile, 2 user-supplied listfile naming only every other file
+    #[serde(default)]
+    listfile_mode: u8,
 }
 
 fn err_kind(e: &wow_mpq::Error) -> String {
@@ -85,9 +91,17 @@ fn check_case(check: &Check, case: &Case, origin: &str) -> CaseResult {
     let dir = engine::scratch("c09");
     let path = dir.path().join("a.mpq");
     let mut spec = case.spec.clone();
-    spec.listfile = true;
+    spec.listfile = case.listfile_mode % 3 != 1;
+    let builder = if case.listfile_mode % 3 == 2 {
+        let lf = dir.path().join("names.txt");
+        let text: String = spec.files.iter().step_by(2).map(|f| format!("{}\r\n", f.name)).collect();
+        std::fs::write(&lf, text).map_err(|e| engine::Fail::new("harness:io", e.to_string()))?;
+        spec.builder().listfile_option(wow_mpq::ListfileOption::External(lf))
+    } else {
+        spec.builder()
+    };
     // lossy selectors are not in METHODS; build must succeed
-    if engine::guard("build", || spec.builder().build(&path))?.is_err() {
+    if engine::guard("build", || builder.build(&path))?.is_err() {
         check.bump("discard_build_err", 1);
         return Ok(());
     }
@@ -118,13 +132,15 @@ fn check_case(check: &Check, case: &Case, origin: &str) -> CaseResult {
         _ => ">5000",
     };
     let class = format!(
-        "{origin}:len{lc}:thr{}:batches{}:skip{}:missing{}:dup{}:cont{}",
+        "{origin}:len{lc}:thr{}:batches{}:skip{}:missing{}:dup{}:cont{}:lf{}:ord{}",
         case.threads.min(17),
         nb.min(5),
         case.skip_errors as u8,
         any_missing as u8,
         has_dup as u8,
-        case.contention as u8
+        case.contention as u8,
+        case.listfile_mode % 3,
+        case.cfg_order % 6
     );
     let nontrivial = case.threads >= 2 && nb >= 2 && (has_dup || any_missing);
     check.count(&class, nontrivial);
@@ -135,7 +151,15 @@ fn check_case(check: &Check, case: &Case, origin: &str) -> CaseResult {
     let path2 = path.clone();
     let run_all = || -> CaseResult {
         // 1. extract_with_config
-        let cfg = ParallelConfig::new().threads(case.threads).batch_size(case.batch).skip_errors(case.skip_errors);
+        // the three setters are independent: every call order must give the same configuration
+        let mut cfg = ParallelConfig::new();
+        for step in [[0u8, 1, 2], [0, 2, 1], [1, 0, 2], [1, 2, 0], [2, 0, 1], [2, 1, 0]][(case.cfg_order % 6) as usize] {
+            cfg = match step {
+                0 => cfg.threads(case.threads),
+                1 => cfg.batch_size(case.batch),
+                _ => cfg.skip_errors(case.skip_errors),
+            };
+        }
         let r = engine::guard("extract_with_config", || extract_with_config(&path2, &refs, cfg))?;
         let route = if names.len() > 1000 { "batched" } else { "unbatched" };
         match r {
@@ -396,7 +420,7 @@ fn grid(thorough: bool) -> Vec<Case> {
                             requests[*p] = n + 1;
                         }
                     }
-                    v.push(Case { spec: spec.clone(), requests, n_missing_pool: 3, threads, batch, skip_errors: skip, reps: 1, contention: false });
+                    v.push(Case { spec: spec.clone(), requests, n_missing_pool: 3, threads, batch, skip_errors: skip, reps: 1, contention: false, cfg_order: (v.len() % 6) as u8, listfile_mode: ((v.len() / 6) % 3) as u8 });
                 }
             }
         }
@@ -452,11 +476,13 @@ fn main() {
                 prop_oneof![Just(1usize), Just(2), Just(3), Just(10), Just(25), Just(1000), (1usize..70)],
                 any::<bool>(),
                 any::<bool>(),
+                0u8..6,
+                prop_oneof![2 => Just(0u8), 1 => Just(1u8), 1 => Just(2u8)],
             )
-                .prop_map(move |(spec, sel, threads, batch, skip_errors, contention)| {
+                .prop_map(move |(spec, sel, threads, batch, skip_errors, contention, cfg_order, listfile_mode)| {
                     let pool = spec.files.len() + 3;
                     let requests = sel.iter().map(|&s| pt::pick_idx(s, pool) as u16).collect();
-                    Case { spec, requests, n_missing_pool: 3, threads, batch, skip_errors, reps, contention }
+                    Case { spec, requests, n_missing_pool: 3, threads, batch, skip_errors, reps, contention, cfg_order, listfile_mode }
                 })
         },
         |c| serde_json::to_value(c).unwrap(),
